@@ -47,6 +47,7 @@ type c06Case struct {
 	Target  int            `json:"target"`
 	Sampled bool           `json:"sampled"`
 	Crashes []c06Crash     `json:"crashes,omitempty"`
+	RaceOk  bool           `json:"raceok"`
 	newID   string
 	entries []world.Entry
 	before  [2]string
@@ -182,6 +183,10 @@ func c06Run(cs *c06Case, r *gen.Rand) {
 		}
 		cs.entries = es
 	}
+	cs.RaceOk = true
+	if cs.Kind == "upload" && !cs.Sampled {
+		cs.RaceOk = c06Race(cs, base)
+	}
 	var metaCalls []int // positions (1-based) of metadata writes in the trace
 	for i, t := range cr.Trace {
 		if strings.HasPrefix(t, "meta:") || strings.HasPrefix(t, "vmeta:") {
@@ -296,6 +301,21 @@ func c06Run(cs *c06Case, r *gen.Rand) {
 				if e == nil {
 					got, e2 := w.Download("repo", rid, 0, nil)
 					co.RetryOk = e2 == nil && sameFiles(got, cs.Files)
+					// the leftover of the interrupted run hides no bundle from a listing, whatever the page size
+					want := map[string]bool{rid: true}
+					for _, id := range ids {
+						want[id] = true
+					}
+					for _, bsz := range []int{1, 2} {
+						bs, e3 := core.ListBundles("repo", w.Stores(), core.BatchSize(bsz))
+						seen := 0
+						for _, b := range bs {
+							if want[b.ID] {
+								seen++
+							}
+						}
+						co.RetryOk = co.RetryOk && e3 == nil && seen == len(want)
+					}
 				}
 			} else if cs.Kind == "commit" {
 				// a retried commit succeeds unless the interrupted one had already terminated the diamond; what it
@@ -319,9 +339,72 @@ func c06Run(cs *c06Case, r *gen.Rand) {
 					co.RetryOk = l.DownloadDescriptor(context.Background(), b, true) == nil && l.Descriptor.BundleID == cs.labelID
 				}
 			}
+			if len(cs.Crashes) == 0 {
+				co.SameIDOk = co.SameIDOk && cs.RaceOk
+			}
 			cs.Crashes = append(cs.Crashes, co)
 		}
 	}
+}
+
+// two uploads under one preserved bundle id, the second one run to completion just before the k-th
+// metadata write of the first: whichever becomes visible keeps its own content, and at most one does
+func c06Race(cs *c06Case, base *world.World) bool {
+	alt := make([]world.File, len(cs.Files))
+	for i, f := range cs.Files {
+		alt[i] = world.File{Name: f.Name, Data: append([]byte("late:"), f.Data...)}
+	}
+	if len(alt) > 1 {
+		alt = alt[:len(alt)-1] // another number of entries
+	}
+	for k := 1; k <= 4; k++ {
+		w := base.Clone()
+		plain := &world.World{Meta: w.Meta, VMeta: w.VMeta, Blob: w.Blob, Wal: w.Wal, ReadLog: w.ReadLog}
+		var errA error
+		ranA := false
+		n := 0
+		f := &memstore.Faults{}
+		f.Hook = func(store, op, key string) {
+			if store != "meta" || op != "put" || !strings.Contains(key, cs.newID) || ranA {
+				return
+			}
+			if n++; n == k {
+				ranA = true
+				_, errA = plain.Upload("repo", world.Consumable(cs.Files), world.UploadOpts{LeafSize: 64, BundleID: cs.newID, Message: "first", Concurrency: 1})
+			}
+		}
+		w.WrapMeta = func(st storage.Store) storage.Store { return &memstore.Flaky{Store: st, F: f, Name: "meta"} }
+		_, errB := w.Upload("repo", world.Consumable(alt), world.UploadOpts{LeafSize: 64, BundleID: cs.newID, Message: "late", Concurrency: 1})
+		if !ranA {
+			break
+		}
+		listed := false
+		if bs, e := core.ListBundles("repo", plain.Stores()); e == nil {
+			for _, b := range bs {
+				listed = listed || b.ID == cs.newID
+			}
+		} else {
+			return false
+		}
+		got, e := plain.Download("repo", cs.newID, 0, nil)
+		switch {
+		case errA == nil && errB != nil:
+			if !listed || e != nil || !sameFiles(got, cs.Files) {
+				return false
+			}
+		case errA != nil && errB == nil:
+			if !listed || e != nil || !sameFiles(got, alt) {
+				return false
+			}
+		case errA != nil && errB != nil:
+			if listed {
+				return false
+			}
+		default:
+			return false
+		}
+	}
+	return true
 }
 
 func wrapAll(w *world.World, c *memstore.Crash) {
@@ -367,7 +450,7 @@ func init() {
 		c.CaseTy = "acase"
 		c.Report = "report"
 		c.PerFile = 2
-		c.Rule = "histories of 0..3 committed bundles and labels, then a bundle upload, a label assignment or the commit of a diamond with one or two completed splits interrupted at every mutating store call (blob and metadata stores; before and after the call lands) - all calls for small trees, every metadata write plus sampled blob writes for a 1001-file tree with two file lists; after each crash a restarted process lists bundles, resolves the latest bundle, lists labels, downloads every previously committed bundle and the new one, retries the operation, and retries an interrupted upload under the same bundle id with other content of the same shape; label assignments also move existing labels; non-trivial = crash point at which the operation had written at least one object, distinct by case and crash point"
+		c.Rule = "histories of 0..3 committed bundles and labels, then a bundle upload, a label assignment or the commit of a diamond with one or two completed splits interrupted at every mutating store call (blob and metadata stores; before and after the call lands) - all calls for small trees, every metadata write plus sampled blob writes for a 1001-file tree with two file lists; after each crash a restarted process lists bundles, resolves the latest bundle, lists labels, downloads every previously committed bundle and the new one, retries the operation, retries an interrupted upload under the same bundle id with other content of the same shape, lists the bundles again page by page after the retry; two uploads under one preserved bundle id, one run to completion just before each metadata write of the other; label assignments also move existing labels; non-trivial = crash point at which the operation had written at least one object, distinct by case and crash point"
 		emit := func(cs *c06Case) {
 			n := 0
 			for _, co := range cs.Crashes {
